@@ -65,7 +65,7 @@ def consistent_with(u, UB, hmax):
     return None
 
 
-def soundness(run, V, ubis, passes, gv_all, cell, hmax, route, truth=None):
+def soundness(run, V, ubis, passes, gv_all, cell, hmax, route, truth=None, refines=None):
     """ubis[k] was accepted while the indexer had (minpks, hkl_tol) = passes[k].  truth = (UBs, gid, noise) or None"""
     cell0 = np.array(cell, float)
     cons = {}
@@ -75,7 +75,17 @@ def soundness(run, V, ubis, passes, gv_all, cell, hmax, route, truth=None):
         run.count("reported_ubis_judged")
         lo, hi = count_indexed(u, gv_all, hkl_tol)
         if hi <= minpks:
-            V(route + ":too-few-peaks", "reported UBI #%d indexes %d..%d supplied g-vectors at hkl_tol=%g, not more than minpks=%g"
+            # which mechanism?  The gate in scorethem counts the peaks of the two-peak TRIAL orientation, the report is its
+            # least-squares fit.  When the trial certainly had more than minpks peaks and the fit has not, the count was lost
+            # in the refinement step (documented known finding); anything else is a report that never qualified.
+            key = route + ":too-few-peaks"
+            for before, after in (refines or []):
+                if np.array_equal(after, u):
+                    blo, bhi = count_indexed(before, gv_all, hkl_tol)
+                    if blo > minpks:
+                        key = "too-few-peaks:count-lost-in-refinement"
+                    break
+            V(key, "reported UBI #%d indexes %d..%d supplied g-vectors at hkl_tol=%g, not more than minpks=%g"
               % (k, lo, hi, hkl_tol, minpks), k)
         if not np.linalg.det(u) > 0:
             V(route + ":left-handed", "reported UBI #%d is left handed" % k, k)
@@ -208,10 +218,21 @@ class PassLog(object):
             finally:
                 log.passes.extend([(float(ix.minpks), float(ix.hkl_tol))] * (len(ix.ubis) - n0))
         self.indexing.indexer.scorethem = scorethem
+        # the least-squares step between the acceptance gate (count of the TRIAL orientation) and the report
+        self.refines = []
+        self.orig_sr = orig_sr = self.indexing.cImageD11.score_and_refine
+
+        def score_and_refine(ubi, gv, tol):
+            before = np.array(ubi, copy=True)
+            out = orig_sr(ubi, gv, tol)
+            log.refines.append((before, np.array(ubi, copy=True)))
+            return out
+        self.indexing.cImageD11.score_and_refine = score_and_refine
         return self
 
     def __exit__(self, *a):
         self.indexing.indexer.scorethem = self.orig
+        self.indexing.cImageD11.score_and_refine = self.orig_sr
 
 
 def one_scenario(run, seed, idx, mods, mode):
@@ -401,7 +422,7 @@ def one_scenario(run, seed, idx, mods, mode):
             truth = (UBs, gid[rows], noise[rows])
     if truth is None:
         run.count("truth_rows_unmapped")
-    cons = soundness(run, V, ubis, passes, np.asarray(gv_seen, float), cell, hmax, route, truth)
+    cons = soundness(run, V, ubis, passes, np.asarray(gv_seen, float), cell, hmax, route, truth, plog.refines)
     if len(ix.scores) != len(ix.ubis):
         V(route + ":scores-length", "len(scores) != len(ubis)")
     if mode == "hiorder":
@@ -410,16 +431,25 @@ def one_scenario(run, seed, idx, mods, mode):
     if not noisy and not boundary:
         # every pass asks for <= the first pass' minpks at >= its tolerance: a grain of ideal data must be found
         tolmin = min(t for _, t in passes) if passes else hkl_tol
+        # "reported, up to lattice symmetry": some report indexes EVERY supplied peak of the simulated grain at the
+        # tolerance of its pass.  (Deciding this on the matrix ubi.UB_true would demand integer entries in the
+        # conventional basis; for centred and pseudo-symmetric cells - orthorhombic C with b ~ sqrt(3) a - the indexer
+        # legitimately returns the lattice turned by a (pseudo-)symmetry operation, whose matrix has half-integer entries
+        # there.  The cell-parameter test of the soundness part already excludes sub- and super-lattices.)
         matched = [[] for _ in UBs]
-        for k, u in enumerate(ubis):
-            for g, UB in enumerate(UBs):
-                M = u @ UB
-                Mi = np.round(M)
-                # the reported matrix is least-squares refined on every peak it indexes, which
-                # includes accidental peaks of the other grains (error < hkl_tol), so it may
-                # sit up to a fraction of hkl_tol from the generating lattice
-                if np.abs(M - Mi).max() < 0.5 * passes[k][1] and abs(np.linalg.det(Mi) - 1) < 1e-9:
-                    matched[g].append(k)
+        gseen = np.asarray(gv_seen, float)
+        if truth is not None:
+            tg = truth[1]
+            for k, u in enumerate(ubis):
+                d2, ih, hh = ref_drlv2(np.asarray(u, float), gseen)
+                inside = np.asarray(d2 < np.longdouble(passes[k][1]) ** 2 * 1.02, bool)
+                for g in range(len(UBs)):
+                    sel = tg == g
+                    if sel.any() and inside[sel].all():
+                        matched[g].append(k)
+        else:
+            run.count("completeness_skipped_rows_unmapped")
+            return
         run.count("truth_grains_checked", ngr)
         for g, m in enumerate(matched):
             if len(m) == 0:
